@@ -53,9 +53,9 @@ VARIABLES url,       \* 0 = no URL, else index into UrlTable
   user, password, dbname, options, app, envuser,
   host, hosts, hostaddr, hostaddrs, port, ports,
   ctimeout, keepalives, kidle, sslmode, tsa, cb, lbh,
-  poolmax, pwait, runtime
+  poolmax, pwait, pcreate, qmode, runtime
 vars == <<url, user, password, dbname, options, app, envuser, host, hosts, hostaddr, hostaddrs, port, ports,
-          ctimeout, keepalives, kidle, sslmode, tsa, cb, lbh, poolmax, pwait, runtime>>
+          ctimeout, keepalives, kidle, sslmode, tsa, cb, lbh, poolmax, pwait, pcreate, qmode, runtime>>
 
 Str == {U, "", "alice", "ü"}
 
@@ -63,7 +63,7 @@ Unset ==
   /\ user = U /\ password = U /\ dbname = U /\ options = U /\ app = U /\ envuser = U
   /\ host = U /\ hosts = <<U>> /\ hostaddr = U /\ hostaddrs = <<U>> /\ port = -1 /\ ports = <<-1>>
   /\ ctimeout = -1 /\ keepalives = U /\ kidle = -1 /\ sslmode = U /\ tsa = U /\ cb = U /\ lbh = U
-  /\ poolmax = -1 /\ pwait = U /\ runtime = FALSE
+  /\ poolmax = -1 /\ pwait = U /\ pcreate = U /\ qmode = U /\ runtime = FALSE
 
 Init ==
   /\ url \in 0..NUrls
@@ -71,7 +71,7 @@ Init ==
             /\ user \in Str /\ dbname \in {U, "", "db2"} /\ envuser \in {U, "envuser"} /\ password \in {U, "", "pw"}
             /\ options = U /\ app = U /\ host = U /\ hosts = <<U>> /\ hostaddr = U /\ hostaddrs = <<U>> /\ port = -1 /\ ports = <<-1>>
             /\ ctimeout = -1 /\ keepalives = U /\ kidle = -1 /\ sslmode = U /\ tsa = U /\ cb = U /\ lbh = U
-            /\ poolmax = -1 /\ pwait = U /\ runtime = FALSE
+            /\ poolmax = -1 /\ pwait = U /\ pcreate = U /\ qmode = U /\ runtime = FALSE
        [] Slice = "lists" ->
             /\ host \in {U, "hx"} /\ hosts \in {<<U>>, <<>>, <<"hy">>, <<"hy", "hz">>}
             /\ hostaddr \in {U, "10.0.0.1"} /\ hostaddrs \in {<<U>>, <<"10.0.0.2", "::1">>}
@@ -79,7 +79,7 @@ Init ==
             /\ dbname \in {U, "db2"}
             /\ user = U /\ password = U /\ options = U /\ app = U /\ envuser = U
             /\ ctimeout = -1 /\ keepalives = U /\ kidle = -1 /\ sslmode = U /\ tsa = U /\ cb = U /\ lbh = U
-            /\ poolmax = -1 /\ pwait = U /\ runtime = FALSE
+            /\ poolmax = -1 /\ pwait = U /\ pcreate = U /\ qmode = U /\ runtime = FALSE
        [] Slice \in {"scalars", "scalars_full"} ->
             /\ dbname = "db2"
             /\ IF Slice = "scalars_full"
@@ -92,10 +92,11 @@ Init ==
                     /\ sslmode \in {U, "disable", "require"} /\ tsa \in {U, "read-write"}
                     /\ cb \in {U, "require"} /\ lbh \in {U, "random"}
             /\ user = U /\ password = U /\ envuser = U /\ host = U /\ hosts = <<U>> /\ hostaddr = U /\ hostaddrs = <<U>>
-            /\ port = -1 /\ ports = <<-1>> /\ poolmax = -1 /\ pwait = U /\ runtime = FALSE
+            /\ port = -1 /\ ports = <<-1>> /\ poolmax = -1 /\ pwait = U /\ pcreate = U /\ qmode = U /\ runtime = FALSE
             /\ url \in {0, 1, 5, 11}
        [] Slice = "pool" ->
             /\ dbname \in {U, "db2"} /\ poolmax \in {-1, 0, 3} /\ pwait \in {U, "none", "zero", "finite"} /\ runtime \in BOOLEAN
+            /\ pcreate \in {U, "finite"} /\ qmode \in {U, "Fifo", "Lifo"}
             /\ user = U /\ password = U /\ options = U /\ app = U /\ envuser = U
             /\ host = U /\ hosts = <<U>> /\ hostaddr = U /\ hostaddrs = <<U>> /\ port = -1 /\ ports = <<-1>>
             /\ ctimeout = -1 /\ keepalives = U /\ kidle = -1 /\ sslmode = U /\ tsa = U /\ cb = U /\ lbh = U
@@ -134,8 +135,8 @@ Expect ==
    cb |-> Override(cb, Base.cb), lbh |-> Override(lbh, Base.lbh),
    \* create_pool(): configuration errors first, then timeouts without a runtime
    create |-> IF ExpectKind # "ok" THEN "config_error"
-              ELSE IF pwait \in {"zero", "finite"} /\ ~runtime THEN "no_runtime" ELSE "ok",
-   poolmax |-> poolmax]
+              ELSE IF (pwait \in {"zero", "finite"} \/ pcreate # U) /\ ~runtime THEN "no_runtime" ELSE "ok",
+   poolmax |-> poolmax, qmode |-> IF qmode = U THEN "Fifo" ELSE qmode]
 
 Case == [slice |-> Slice, url |-> url, urlstr |-> Base.s, parsed |-> Base,
          user |-> user, password |-> password, dbname |-> dbname, options |-> options, app |-> app, envuser |-> envuser,
@@ -143,7 +144,7 @@ Case == [slice |-> Slice, url |-> url, urlstr |-> Base.s, parsed |-> Base,
          hostaddr |-> hostaddr, hostaddrs |-> hostaddrs, hostaddrs_set |-> hostaddrs # <<U>>,
          port |-> port, ports |-> ports, ports_set |-> ports # <<-1>>,
          ctimeout |-> ctimeout, keepalives |-> keepalives, kidle |-> kidle, sslmode |-> sslmode, tsa |-> tsa, cb |-> cb, lbh |-> lbh,
-         poolmax |-> poolmax, pwait |-> pwait, runtime |-> runtime, expect |-> Expect]
+         poolmax |-> poolmax, pwait |-> pwait, pcreate |-> pcreate, qmode |-> qmode, runtime |-> runtime, expect |-> Expect]
 Emit == PrintT(<<"CASE", ToJson(Case)>>)
 Total == ExpectKind \in {"ok", "InvalidUrl", "DbnameMissing", "DbnameEmpty"}
 =============================================================================
